@@ -104,6 +104,21 @@ def build_cases(rep, tier, rng):
         prob = trsolve.random_problem(rng, n, "convex")
         cases.append(dict(mode="convex_default", prob=prob, x0=[rng.uniform(-3, 3) for _ in range(n)], settings={},
                           precond="exact", script=None))
+    # saddle starts: strongly indefinite Hessian at x0 = 0, tiny gradient, quartic growth, default (shifted) preconditioner.
+    # About 3% of these runs reach the "positive model objective" branch (rejected negative-curvature step, then a dogleg
+    # between the unpreconditioned Cauchy point and the rejected point), whose re-signing of rho is what keeps an
+    # uphill step from being accepted there.
+    import numpy as _onp
+    for i in range(220 if tier == "quick" else 3000):
+        n = 3
+        M = _onp.array([[rng.gauss(0, 1) for _ in range(n)] for _ in range(n)])
+        A = (M + M.T) * rng.uniform(0.5, 3)
+        ev = _onp.linalg.eigvalsh(A)
+        if ev[0] > 0:
+            A = A - _onp.eye(n) * (ev[0] + 1)
+        prob = dict(A=A.tolist(), b=[-0.1 * rng.uniform(0.1, 1) * rng.choice([-1, 1]) for _ in range(n)], c3=0.0,
+                    c4=rng.uniform(0.3, 10), s=0.0, w=[1.0] * n, kind="saddle_start", n=n)
+        cases.append(dict(mode="genuine", prob=prob, x0=[0.0] * n, settings={}, precond="exact", script=None))
     # through the load-step driver: the objective still carries the previous step's parameters; the flag must refer
     # to the parameters the solve was asked for (warm start / preconditioner refresh on and off)
     for i in range(24 if tier == "quick" else 300):
@@ -173,6 +188,7 @@ def main(tier, replay=None):
         exits[k] = exits.get(k, 0) + 1
     rep.coverage["exit_kinds"] = exits
     rep.coverage["scripted_values_consumed"] = sum(t["n_scripted"] for t in traces)
+    rep.coverage["trials_with_positive_model"] = sum(1 for t in traces for e in t["ev"] if e["e"] == "Trial" and e.get("modelPos"))
     rep.coverage["rho_classes_seen"] = sorted({e["rho"] for t in traces for e in t["ev"] if e["e"] == "Trial"})
     if traces:
         rep.sample(dict(case={k: v for k, v in cases[0].items() if k != "prob"}, events=traces[0]["ev"][:8]))
